@@ -112,16 +112,17 @@ def plan(ctx):
         # combination; alone, after "Tag t1", after "Hostname ra"
         ('gencli', 'cli', dict(GenSel=[1, 2, 3], PreSel=[0, 29, 41],
                                TgtSel=[1, 2, 3, 4], **smp(2 if q else 1))),
-        ('gensrv', 'srv', dict(GenSel=[4], PreSel=[0, 52])),
+        ('gensrv', 'srv', dict(GenSel=[4], PreSel=[0, 52],
+                               TgtSel=[1, 2, 3, 9, 12])),
         # value classes: the same option twice (every ordered pair of: ordinary
         # value, "none" in several spellings, quoted empty, the default,
         # booleans in every spelling, numbers, +/-/^ lists, list values) in two
         # matching blocks / across Include / two files / chained options
         ('valcli', 'cli', dict(ValSel=list(range(1, 26)),
-                               ShapeSel=[1, 2, 3, 4, 5, 6], TgtSel=[1],
-                               **smp(2 if q else 1))),
+                               ShapeSel=[1, 2, 3, 4, 5, 6],
+                               TgtSel=[1] if q else [1, 4])),
         ('valsrv', 'srv', dict(ValSel=list(range(26, 34)),
-                               ShapeSel=[1, 2, 3, 4], **smp(4 if q else 1))),
+                               ShapeSel=[1, 2, 3, 4], TgtSel=[1, 2, 9])),
         ('srv3', 'srv', dict(MaxMain=3, MaxInc=1,
                              MainSel=[7, 43, 46, 47, 48, 49, 50, 51, 52, 53],
                              IncSel=[46, 48, 50, 51], **smp(12 if q else 1))),
@@ -187,6 +188,7 @@ class Replayer:
         self.defect_hits = {}
         self.suppressed = 0
         self.second = []
+        self.second_val = []
         self.connector = cd.Connector()
         self.resolved = 0
         self.glob_rev = self.world.glob_reversed
@@ -291,7 +293,8 @@ class Replayer:
             break
         else:
             if cd.ssh_applicable(menu, prog, target):
-                self.second.append((main, a, b, ti, exp, x))
+                (self.second_val if x or names & set(cd.TYPED)
+                 else self.second).append((main, a, b, ti, exp, x))
 
     def srv(self, rec):
         _, main, a, b, ui, unsafe, pr, alts, rawakf, x, typed = rec
@@ -378,7 +381,7 @@ class Replayer:
         getattr(self, rec[0])(rec)
 
 
-def second_opinion(ctx, cd, menu, cases, root, limit):
+def second_opinion(ctx, cd, menu, cases, root, limit, label):
     step = max(1, len(cases) // limit)
     todo = cases[::step][:limit]
     agree = differ = failed = 0
@@ -404,7 +407,7 @@ def second_opinion(ctx, cd, menu, cases, root, limit):
                 differ += 1
                 ctx.divergence(f'second opinion: ssh -G gives {so}, the '
                                f'specification {exp}: {texts} {target}')
-    ctx.notes.append(f'ssh -G second opinion: {agree} agree, {differ} differ, '
+    ctx.notes.append(f'ssh -G second opinion ({label}): {agree} agree, {differ} differ, '
                      f'{failed} not answered (of {len(todo)} sampled cases)')
 
 
@@ -620,7 +623,10 @@ def _main(ctx, cd, root):
         res.output = ''
     ctx.traces_validated(total)
 
-    second_opinion(ctx, cd, menu, rep.second, root, 900 if quick else 5000)
+    second_opinion(ctx, cd, menu, rep.second, root, 800 if quick else 5000,
+                   'programs')
+    second_opinion(ctx, cd, menu, rep.second_val, root,
+                   400 if quick else 3000, 'value-class programs')
 
     rep.connector.close()
     ctx.notes.append(f'{rep.resolved} cases also resolved through '
